@@ -44,6 +44,12 @@ fn lens(quick: bool) -> Vec<usize> {
     let r = if quick { 40 } else { 136 };
     v.extend(8192 - r..=8192 + r);
     v.extend(16384 - 16..=16384 + 16);
+    // block sizes a scanning loop may work in: both sides of every power of two from 128 to 4096
+    for k in 7..=12 {
+        v.extend((1usize << k) - 4..=(1usize << k) + if quick { 6 } else { 20 });
+    }
+    v.sort_unstable();
+    v.dedup();
     v
 }
 
@@ -66,7 +72,7 @@ fn positions(l: usize, quick: bool) -> Vec<usize> {
 
 fn run(ctx: &mut Ctx) {
     let quick = ctx.quick();
-    ctx.bound("space", format!("buffer lengths 0..=96 (thorough: 0..=288), 8192-{r}..=8192+{r}, 16384-16..=16384+16; no magic, or first magic at every offset within {p} bytes of the buffer start / of offset 8192 / of the buffer end; stored length word in {{0,8,16,24,0x10010,L-i-8,L-i-1,L-i,L-i+1,0xFFFFFFFF}}; a second magic {{none, 8 bytes earlier, 5 bytes earlier, 16 bytes later}}; zero filler; buffer 8-aligned, flush against a PROT_NONE guard page when its length is a multiple of 8 and otherwise at most 7 bytes before it, those slack bytes varied between two fills", r = if quick { 40 } else { 136 }, p = if quick { 24 } else { 72 }));
+    ctx.bound("space", format!("buffer lengths 0..=96 (thorough: 0..=288), 8192-{r}..=8192+{r}, 16384-16..=16384+16, 2^k-4..=2^k+6 (thorough: +20) for k in 7..=12; no magic, or first magic at every offset within {p} bytes of the buffer start / of offset 8192 / of the buffer end; stored length word in {{0,8,16,24,0x10010,L-i-8,L-i-1,L-i,L-i+1,0xFFFFFFFF}}; a second magic {{none, 8 bytes earlier, 5 bytes earlier, 16 bytes later}}; zero filler; buffer 8-aligned, flush against a PROT_NONE guard page when its length is a multiple of 8 and otherwise at most 7 bytes before it, those slack bytes varied between two fills", r = if quick { 40 } else { 136 }, p = if quick { 24 } else { 72 }));
     let arena = Arena::new(6);
     scan_automaton(ctx, &arena);
     // foreign and structured contents: headers of other byte orders / other boot protocols in front of (or instead
